@@ -615,7 +615,10 @@ class ListItem(BlockToken):
         start_line = lines.line_number()
         next_line = lines.peek()
         indentation, prepend, leader, content = prev_marker if prev_marker else cls.parse_marker(line)
+        # line number of the first line that goes into line_buffer
+        content_start_line = start_line
         if content.strip() == '':
+            content_start_line += 1
             # item starting with a blank line: look for the next non-blank line
             prepend = indentation + len(leader) + 1
             blanks = 1
@@ -673,7 +676,7 @@ class ListItem(BlockToken):
 
         # block-level tokens are parsed here, so that footnotes can be
         # recognized before span-level parsing.
-        parse_buffer = tokenizer.tokenize_block(line_buffer, _token_types, start_line=start_line)
+        parse_buffer = tokenizer.tokenize_block(line_buffer, _token_types, start_line=content_start_line)
         return (parse_buffer, indentation, prepend, leader, start_line), next_marker
 
 
